@@ -1,10 +1,22 @@
+// The full log generator: every message type registered in fsm's `commands` map, built the way the
+// leader builds it (endpoint pre-apply steps: Normalize / Validate / SetHash, ID and timestamp
+// assignment, defaults), accepted and rejected commands, against a live FSM so that references
+// (CAS indexes, IDs, links) are mostly valid. All randomness comes from the one seed.
 package main
 
 import (
+	"encoding/hex"
+	"fmt"
 	"math/rand"
+	"sort"
+	"time"
 
 	"github.com/hashicorp/consul/agent/consul/fsm"
 	"github.com/hashicorp/consul/agent/netutil"
+	"github.com/hashicorp/consul/agent/structs"
+	"github.com/hashicorp/consul/api"
+	"github.com/hashicorp/consul/types"
+	"google.golang.org/protobuf/proto"
 )
 
 func initEnv() {
@@ -13,29 +25,721 @@ func initEnv() {
 	netutil.GetAgentBindAddrFunc = netutil.GetMockGetAgentBindAddrFunc("0.0.0.0")
 }
 
-func typesReport() (map[string]interface{}, []int) {
-	reg := fsm.VerifRegisteredTypes()
-	var missing []int
-	types := []int{}
-	for _, t := range reg {
-		types = append(types, int(t))
+// ---------------------------------------------------------------- universe of the full profile
+
+var (
+	fNodes    = []string{"n1", "n2", "n3", "N1"}
+	fSvcNames = []string{"web", "db", "api", "cache"}
+	fPeers    = []string{"peer-a", "peer-b"}
+	fPeerIDs  = map[string]string{"peer-a": "aaaa1111-0000-0000-0000-000000000001", "peer-b": "bbbb2222-0000-0000-0000-000000000002"}
+	fDCs      = []string{"dc1", "dc2", "dc3"}
+	fIPs      = []string{"240.0.0.1", "240.0.0.2", "240.0.0.3", "240.0.0.4", "2001:db8::1"}
+	fMetaKeys = []string{"version", "env", "team", "zone", "rack"}
+	fUUIDs    = func() []string {
+		out := []string{}
+		for i := 1; i <= 6; i++ {
+			out = append(out, fmt.Sprintf("%08d-1111-2222-3333-%012d", i, i))
+		}
+		return out
+	}()
+	baseTime = time.Date(2024, 3, 1, 12, 0, 0, 0, time.UTC)
+)
+
+type fullGen struct {
+	rng  *rand.Rand
+	r    *replica
+	idx  uint64
+	core *coreGen
+	opn  uint64 // chunking op numbers
+}
+
+type built struct {
+	kind  string
+	typ   structs.MessageType
+	msg   interface{}   // msgpack-encoded request
+	pmsg  proto.Message // or protobuf-encoded request
+	raw   []byte        // or raw bytes after the type byte
+	ext   []byte        // raft.Log.Extensions
+	model *Cmd
+}
+
+func (g *fullGen) pick(xs []string) string { return xs[g.rng.Intn(len(xs))] }
+func (g *fullGen) chance(n int) bool       { return g.rng.Intn(n) == 0 }
+func (g *fullGen) now() time.Time          { return baseTime.Add(time.Duration(g.idx) * time.Second) }
+
+func (g *fullGen) subset(xs []string, max int) []string {
+	n := g.rng.Intn(max + 1)
+	perm := g.rng.Perm(len(xs))
+	out := []string{}
+	for i := 0; i < n && i < len(xs); i++ {
+		out = append(out, xs[perm[i]])
 	}
-	return map[string]interface{}{"registered": types}, missing
+	return out
+}
+
+func (g *fullGen) meta(max int) map[string]string {
+	ks := g.subset(fMetaKeys, max)
+	if len(ks) == 0 {
+		if g.chance(2) {
+			return nil
+		}
+		return map[string]string{}
+	}
+	m := map[string]string{}
+	for _, k := range ks {
+		m[k] = g.pick([]string{"v1", "v2", "prod", ""})
+	}
+	return m
+}
+
+// cas: 0, current (~65%), stale, future
+func (g *fullGen) cas(cur uint64) uint64 {
+	switch r := g.rng.Intn(20); {
+	case r < 13:
+		return cur
+	case r < 15:
+		return 0
+	case r < 18:
+		if cur > 1 {
+			return cur - 1
+		}
+		return cur + 3
+	default:
+		return g.idx + 5
+	}
+}
+
+func encodeBuilt(b *built) []byte {
+	switch {
+	case b.raw != nil:
+		return append([]byte{byte(b.typ)}, b.raw...)
+	case b.pmsg != nil:
+		data, err := structs.EncodeProto(b.typ, b.pmsg)
+		if err != nil {
+			panic(err)
+		}
+		return data
+	default:
+		data, err := structs.Encode(b.typ, b.msg)
+		if err != nil {
+			panic(fmt.Sprintf("encode %s: %v", b.kind, err))
+		}
+		return data
+	}
+}
+
+// ---------------------------------------------------------------- generator registry
+
+type genFn struct {
+	name   string
+	types  []structs.MessageType // the registered message types this generator emits
+	weight int
+	fn     func(g *fullGen) *built
+}
+
+var generators []genFn
+
+func reg(name string, weight int, fn func(g *fullGen) *built, types ...structs.MessageType) {
+	generators = append(generators, genFn{name, types, weight, fn})
+}
+
+func typesReport() (map[string]interface{}, []int) {
+	regd := fsm.VerifRegisteredTypes()
+	cover := map[int][]string{}
+	for _, gf := range generators {
+		for _, t := range gf.types {
+			cover[int(t)] = append(cover[int(t)], gf.name)
+		}
+	}
+	var missing []int
+	tys := []int{}
+	names := map[string]string{}
+	for _, t := range regd {
+		tys = append(tys, int(t))
+		names[fmt.Sprint(int(t))] = t.String()
+		if len(cover[int(t)]) == 0 {
+			missing = append(missing, int(t))
+		}
+	}
+	cov := map[string][]string{}
+	for t, n := range cover {
+		cov[fmt.Sprint(t)] = n
+	}
+	return map[string]interface{}{"registered": tys, "names": names, "generators": cov, "missing": missing}, missing
+}
+
+func (g *fullGen) nextBuilt() *built {
+	tot := 0
+	for _, gf := range generators {
+		tot += gf.weight
+	}
+	for tries := 0; tries < 50; tries++ {
+		r := g.rng.Intn(tot)
+		for _, gf := range generators {
+			if r < gf.weight {
+				if b := gf.fn(g); b != nil {
+					return b
+				}
+				break
+			}
+			r -= gf.weight
+		}
+	}
+	return genKVS(g)
+}
+
+// next returns the log entries of one command (several when the command is sent in chunks).
+func (g *fullGen) next() []Entry {
+	g.idx += uint64(1 + g.rng.Intn(3))
+	g.core.idx = g.idx
+	b := g.nextBuilt()
+	data := encodeBuilt(b)
+	if b.model != nil {
+		b.model.Idx = g.idx
+	}
+	// a large-ish command is sometimes sent the way raftApplyWithEncoder chunks it
+	if len(data) > 40 && b.ext == nil && g.chance(40) {
+		return g.chunked(b, data)
+	}
+	return []Entry{{Idx: g.idx, Kind: b.kind, Type: int(data[0] &^ byte(structs.IgnoreUnknownTypeFlag)), Data: hex.EncodeToString(data),
+		Ext: hex.EncodeToString(b.ext), Model: b.model}}
+}
+
+// ---------------------------------------------------------------- state lookups
+
+func (g *fullGen) st() *stateView { return &stateView{g} }
+
+type stateView struct{ g *fullGen }
+
+func (g *fullGen) existingNodes() []string {
+	_, ns, _ := g.r.store().Nodes(nil, nil, "")
+	out := []string{}
+	for _, n := range ns {
+		out = append(out, n.Node)
+	}
+	return out
+}
+
+func (g *fullGen) nodeName() string {
+	if ex := g.existingNodes(); len(ex) > 0 && g.rng.Intn(6) > 0 {
+		return ex[g.rng.Intn(len(ex))]
+	}
+	return g.pick(fNodes)
+}
+
+func (g *fullGen) liveSessions() []string {
+	_, ss, _ := g.r.store().SessionList(nil, nil)
+	out := []string{}
+	for _, s := range ss {
+		out = append(out, s.ID)
+	}
+	return out
+}
+
+func (g *fullGen) session() string {
+	live := g.liveSessions()
+	switch r := g.rng.Intn(20); {
+	case r < 16 && len(live) > 0:
+		return live[g.rng.Intn(len(live))]
+	case r < 17:
+		return ""
+	default:
+		return g.pick(sessIDs)
+	}
+}
+
+type svcInst struct {
+	node string
+	svc  *structs.NodeService
+}
+
+func (g *fullGen) instances() []svcInst {
+	out := []svcInst{}
+	for _, n := range g.existingNodes() {
+		_, ns, _ := g.r.store().NodeServices(nil, n, nil, "")
+		if ns == nil {
+			continue
+		}
+		ids := []string{}
+		for id := range ns.Services {
+			ids = append(ids, id)
+		}
+		sort.Strings(ids)
+		for _, id := range ids {
+			out = append(out, svcInst{n, ns.Services[id]})
+		}
+	}
+	return out
+}
+
+// ---------------------------------------------------------------- catalog
+
+func (g *fullGen) taggedAddrs() map[string]structs.ServiceAddress {
+	ks := g.subset([]string{"lan", "wan", "lan_ipv4", "wan_ipv4", "custom", structs.TaggedAddressVirtualIP}, 3)
+	if len(ks) == 0 {
+		return nil
+	}
+	m := map[string]structs.ServiceAddress{}
+	for _, k := range ks {
+		m[k] = structs.ServiceAddress{Address: fmt.Sprintf("10.1.%d.%d", g.rng.Intn(2), 1+g.rng.Intn(3)), Port: 8000 + g.rng.Intn(3)}
+	}
+	return m
+}
+
+func (g *fullGen) nodeService() *structs.NodeService {
+	name := g.pick(fSvcNames)
+	s := &structs.NodeService{Service: name, ID: name + fmt.Sprint(1+g.rng.Intn(2)), Port: 8000 + g.rng.Intn(3),
+		Tags: g.subset([]string{"primary", "v1", "v2"}, 2), Meta: g.meta(3), TaggedAddresses: g.taggedAddrs()}
+	if len(s.Tags) == 0 && g.chance(2) {
+		s.Tags = nil
+	}
+	if g.chance(4) {
+		s.Address = fmt.Sprintf("10.2.0.%d", 1+g.rng.Intn(3))
+	}
+	if g.chance(4) {
+		s.Weights = &structs.Weights{Passing: 1 + g.rng.Intn(3), Warning: 1}
+	}
+	if g.chance(5) {
+		s.EnableTagOverride = true
+	}
+	switch r := g.rng.Intn(20); {
+	case r < 8: // typical
+	case r < 12: // sidecar proxy
+		dest := g.pick(fSvcNames)
+		s.Kind = structs.ServiceKindConnectProxy
+		s.Service = dest + "-sidecar-proxy"
+		s.ID = s.Service + fmt.Sprint(1+g.rng.Intn(2))
+		s.Proxy = structs.ConnectProxyConfig{DestinationServiceName: dest, DestinationServiceID: dest + "1", LocalServicePort: 8000}
+		for _, u := range g.subset(fSvcNames, 3) {
+			up := structs.Upstream{DestinationType: structs.UpstreamDestTypeService, DestinationName: u, LocalBindPort: 9000 + len(s.Proxy.Upstreams)}
+			if g.chance(4) {
+				up.DestinationPeer = g.pick(fPeers)
+			}
+			if g.chance(6) {
+				up.Datacenter = "dc2"
+			}
+			s.Proxy.Upstreams = append(s.Proxy.Upstreams, up)
+		}
+		if g.chance(3) {
+			s.Proxy.Mode = structs.ProxyModeTransparent
+		}
+		if g.chance(4) {
+			s.Proxy.Config = map[string]interface{}{"protocol": g.pick([]string{"http", "tcp"})}
+		}
+	case r < 14:
+		s.Connect.Native = true
+	case r < 16:
+		s.Kind = structs.ServiceKindTerminatingGateway
+		s.Service, s.ID = "tgw", "tgw"+fmt.Sprint(1+g.rng.Intn(2))
+	case r < 17:
+		s.Kind = structs.ServiceKindIngressGateway
+		s.Service, s.ID = "igw", "igw1"
+	case r < 18:
+		s.Kind = structs.ServiceKindMeshGateway
+		s.Service, s.ID = "mgw", "mgw1"
+	case r < 19:
+		s.Kind = structs.ServiceKindAPIGateway
+		s.Service, s.ID = "apigw", "apigw1"
+	default:
+		s.Service, s.ID = "consul", "consul"
+	}
+	if g.chance(25) {
+		// what a client of the Catalog.Register RPC can send: service meta the endpoint does not vet
+		s.Meta = map[string]string{"bad key!": "x", "also bad?": "y"}
+	}
+	return s
+}
+
+func (g *fullGen) healthCheck(node string) *structs.HealthCheck {
+	id := g.pick([]string{"c1", "c2", "serfHealth", "sc1", "svc:web1"})
+	hc := &structs.HealthCheck{Node: node, CheckID: types.CheckID(id), Name: "check " + id,
+		Status: g.pick([]string{api.HealthPassing, api.HealthWarning, api.HealthCritical}), Output: g.pick([]string{"", "ok", "timeout"})}
+	if g.chance(5) {
+		hc.Notes = "n"
+	}
+	if g.chance(3) {
+		insts := g.instances()
+		if len(insts) > 0 && g.rng.Intn(4) > 0 {
+			in := insts[g.rng.Intn(len(insts))]
+			if in.node == node || g.chance(8) {
+				hc.ServiceID = in.svc.ID
+			}
+		} else {
+			hc.ServiceID = g.pick(fSvcNames) + "1"
+		}
+	}
+	if id == "sc1" {
+		hc.Type = "session"
+		hc.Definition.SessionName = g.pick(sessNames[1:])
+		hc.ServiceID = ""
+	}
+	if id == "serfHealth" {
+		hc.ServiceID = ""
+	}
+	if g.chance(6) {
+		hc.Definition.Interval = 10 * time.Second
+		hc.Definition.HTTP = "http://localhost/health"
+		hc.Definition.Header = map[string][]string{"X-A": {"1", "2"}, "X-B": {"3"}}
+		hc.Type = "http"
+	}
+	return hc
+}
+
+func genRegister(g *fullGen) *built {
+	node := g.pick(fNodes[:3])
+	if g.chance(2) {
+		node = g.nodeName()
+	}
+	if g.chance(40) {
+		node = "N1"
+	}
+	r := &structs.RegisterRequest{Datacenter: "dc1", Node: node, Address: fmt.Sprintf("10.0.0.%d", 1+g.rng.Intn(2)),
+		ID: types.NodeID(g.pick(nodeIDs)), SkipNodeUpdate: g.chance(8)}
+	if g.rng.Intn(3) > 0 {
+		if _, n, _ := g.r.store().GetNode(node, nil, ""); n != nil {
+			r.ID = n.ID
+		}
+	}
+	if g.chance(3) {
+		r.TaggedAddresses = map[string]string{}
+		for _, k := range g.subset([]string{"lan", "wan", "lan_ipv4", "wan_ipv6"}, 3) {
+			r.TaggedAddresses[k] = fmt.Sprintf("192.168.0.%d", 1+g.rng.Intn(3))
+		}
+	}
+	if g.chance(3) {
+		r.NodeMeta = g.meta(3)
+	}
+	if g.chance(10) {
+		r.Locality = &structs.Locality{Region: "us-west-1", Zone: g.pick([]string{"a", "b"})}
+	}
+	kind := "register:node"
+	if g.rng.Intn(10) < 6 {
+		for tries := 0; tries < 5; tries++ {
+			s := g.nodeService()
+			// the endpoint's servicePreApplyValidate
+			if err := s.Validate(); err != nil {
+				continue
+			}
+			r.Service = s
+			kind = "register:service"
+			if s.Kind != "" {
+				kind = "register:" + string(s.Kind)
+			} else if s.Connect.Native {
+				kind = "register:connect-native"
+			}
+			break
+		}
+	}
+	for n := g.rng.Intn(3); n > 0; n-- {
+		hc := g.healthCheck(node)
+		if g.chance(15) {
+			hc.Node = g.pick(fNodes)
+		}
+		if r.Service != nil && g.chance(2) && hc.Type != "session" && hc.CheckID != "serfHealth" {
+			hc.ServiceID = r.Service.ID
+		}
+		r.Checks = append(r.Checks, hc)
+	}
+	if len(r.Checks) == 1 && g.chance(3) {
+		r.Check, r.Checks = r.Checks[0], nil
+	}
+	if g.chance(12) {
+		// imported from a peer (written by the peerstream handler)
+		r.PeerName = g.pick(fPeers)
+		if r.Service != nil {
+			r.Service.PeerName = r.PeerName
+		}
+		for _, c := range r.Checks {
+			c.PeerName = r.PeerName
+		}
+		if r.Check != nil {
+			r.Check.PeerName = r.PeerName
+		}
+		kind += ":peer"
+	}
+	return &built{kind: kind, typ: structs.RegisterRequestType, msg: r}
+}
+
+func genDeregister(g *fullGen) *built {
+	r := &structs.DeregisterRequest{Datacenter: "dc1", Node: g.nodeName()}
+	kind := "deregister:node"
+	insts := g.instances()
+	switch g.rng.Intn(4) {
+	case 0:
+		r.ServiceID = g.pick(fSvcNames) + "1"
+		if len(insts) > 0 && g.rng.Intn(4) > 0 {
+			in := insts[g.rng.Intn(len(insts))]
+			r.Node, r.ServiceID = in.node, in.svc.ID
+		}
+		kind = "deregister:service"
+	case 1:
+		r.CheckID = types.CheckID(g.pick([]string{"c1", "c2", "serfHealth", "sc1", "svc:web1"}))
+		kind = "deregister:check"
+	case 2:
+		if !g.chance(3) {
+			return nil
+		}
+	}
+	if g.chance(15) {
+		r.PeerName = g.pick(fPeers)
+		kind += ":peer"
+	}
+	return &built{kind: kind, typ: structs.DeregisterRequestType, msg: r}
+}
+
+// ---------------------------------------------------------------- core commands (KV, session, txn, ...)
+
+func (g *fullGen) coreBuilt(c Cmd) *built {
+	c.Idx = g.idx
+	data := encodeCore(&c)
+	kind := c.Kind
+	if c.Kind == "kvs" {
+		kind = "kvs:" + c.Verb
+	}
+	cc := c
+	return &built{kind: kind, typ: structs.MessageType(data[0]), raw: data[1:], model: &cc}
+}
+
+func genKVS(g *fullGen) *built {
+	verb := g.core.pick(kvWriteVerbs)
+	if (verb == "lock" || verb == "unlock") && len(g.liveSessions()) == 0 && g.rng.Intn(4) > 0 {
+		verb = "set"
+	}
+	if g.chance(40) {
+		// a verb the KVS endpoint never forwards to Raft; the FSM answers with an error
+		verb = g.pick([]string{"get", "check-session", "bogus"})
+		b := g.coreBuilt(Cmd{Kind: "kvs", Verb: verb, KV: g.core.kvReq("set")})
+		b.model = nil
+		b.kind = "kvs:invalid-op"
+		return b
+	}
+	return g.coreBuilt(Cmd{Kind: "kvs", Verb: verb, KV: g.core.kvReq(verb)})
+}
+
+func genSession(g *fullGen) *built {
+	if g.chance(3) {
+		return &built{kind: "session:destroy", typ: structs.SessionRequestType,
+			msg: &structs.SessionRequest{Datacenter: "dc1", Op: structs.SessionDestroy, Session: structs.Session{ID: g.session()}}}
+	}
+	if g.chance(30) {
+		return &built{kind: "session:invalid-op", typ: structs.SessionRequestType,
+			msg: &structs.SessionRequest{Datacenter: "dc1", Op: "renew", Session: structs.Session{ID: g.session()}}}
+	}
+	s := structs.Session{ID: g.pick(sessIDs), Node: g.nodeName(), Name: g.pick(sessNames), Behavior: structs.SessionKeysRelease}
+	for tries := 0; tries < 4; tries++ {
+		live := false
+		for _, l := range g.liveSessions() {
+			live = live || l == s.ID
+		}
+		if !live || g.chance(10) {
+			break
+		}
+		s.ID = g.pick(sessIDs)
+	}
+	if g.chance(3) {
+		s.Behavior = structs.SessionKeysDelete
+	}
+	if g.chance(2) {
+		s.LockDelay = time.Duration(1+g.rng.Intn(15)) * time.Second
+	}
+	if g.chance(3) {
+		s.TTL = g.pick([]string{"10s", "30s", "1h"})
+	}
+	_, ncs, _ := g.r.store().NodeChecks(nil, s.Node, nil, "")
+	for _, hc := range ncs {
+		if g.chance(3) && (hc.Status != api.HealthCritical || g.chance(6)) {
+			if hc.ServiceID != "" && g.chance(2) {
+				s.ServiceChecks = append(s.ServiceChecks, structs.ServiceCheck{ID: string(hc.CheckID)})
+			} else {
+				s.NodeChecks = append(s.NodeChecks, string(hc.CheckID))
+			}
+		}
+	}
+	if g.chance(12) {
+		s.NodeChecks = append(s.NodeChecks, g.pick(checkIDs))
+	}
+	if s.NodeChecks == nil && s.ServiceChecks == nil && g.chance(2) {
+		// Session.Apply's default
+		s.NodeChecks = []string{string(structs.SerfCheckID)}
+	}
+	return &built{kind: "session:create", typ: structs.SessionRequestType,
+		msg: &structs.SessionRequest{Datacenter: "dc1", Op: structs.SessionCreate, Session: s}}
+}
+
+func genCoreMisc(g *fullGen) *built {
+	// the modelled commands exactly as harness/store generates them
+	for tries := 0; tries < 10; tries++ {
+		g.core.idx = g.idx - 1
+		c := g.core.next()
+		g.core.idx = g.idx
+		if c.Kind == "kvs" {
+			continue
+		}
+		return g.coreBuilt(c)
+	}
+	return nil
+}
+
+func genTombstone(g *fullGen) *built {
+	if g.chance(10) {
+		return &built{kind: "tombstone:invalid-op", typ: structs.TombstoneRequestType,
+			msg: &structs.TombstoneRequest{Datacenter: "dc1", Op: "purge", ReapIndex: g.idx}}
+	}
+	return g.coreBuilt(Cmd{Kind: "reap", Upto: g.idx - uint64(g.rng.Intn(8))})
+}
+
+func genLegacyACL(g *fullGen) *built {
+	return &built{kind: "acl-legacy", typ: structs.DeprecatedACLRequestType, msg: map[string]interface{}{"Op": "set", "ACL": map[string]string{"ID": "x"}}}
+}
+
+func genTxnFull(g *fullGen) *built {
+	// transactions over the richer catalog objects (the core ones come from genCoreMisc)
+	r := &structs.TxnRequest{Datacenter: "dc1"}
+	n := 1 + g.rng.Intn(4)
+	for i := 0; i < n; i++ {
+		switch g.rng.Intn(6) {
+		case 0, 1:
+			v := g.core.pick(kvTxnVerbs)
+			o := TxnOp{Kind: "kv", Verb: v, KV: g.core.kvReq(v)}
+			r.Ops = append(r.Ops, txnOp(&o))
+		case 2:
+			node := g.nodeName()
+			nd := structs.Node{Node: node, Address: fmt.Sprintf("10.0.0.%d", 1+g.rng.Intn(2)), Datacenter: "dc1", ID: types.NodeID(g.pick(nodeIDs)), Meta: g.meta(2)}
+			_, cur, _ := g.r.store().GetNode(node, nil, "")
+			if cur != nil {
+				if g.rng.Intn(3) > 0 {
+					nd.ID = cur.ID
+				}
+				nd.ModifyIndex = g.cas(cur.ModifyIndex)
+			}
+			r.Ops = append(r.Ops, &structs.TxnOp{Node: &structs.TxnNodeOp{Verb: api.NodeOp(g.pick([]string{"get", "set", "cas", "delete", "delete-cas"})), Node: nd}})
+		case 3:
+			var s *structs.NodeService
+			for tries := 0; tries < 5 && s == nil; tries++ {
+				if c := g.nodeService(); c.Validate() == nil {
+					s = c
+				}
+			}
+			if s == nil {
+				continue
+			}
+			node := g.nodeName()
+			if _, cur, _ := g.r.store().NodeService(nil, node, s.ID, nil, ""); cur != nil {
+				s.ModifyIndex = g.cas(cur.ModifyIndex)
+			}
+			r.Ops = append(r.Ops, &structs.TxnOp{Service: &structs.TxnServiceOp{Verb: api.ServiceOp(g.pick([]string{"get", "set", "cas", "delete", "delete-cas"})), Node: node, Service: *s}})
+		case 4:
+			hc := g.healthCheck(g.nodeName())
+			if _, cur, _ := g.r.store().NodeCheck(hc.Node, hc.CheckID, nil, ""); cur != nil {
+				hc.ModifyIndex = g.cas(cur.ModifyIndex)
+			}
+			r.Ops = append(r.Ops, &structs.TxnOp{Check: &structs.TxnCheckOp{Verb: api.CheckOp(g.pick([]string{"get", "set", "cas", "delete", "delete-cas"})), Check: *hc}})
+		default:
+			r.Ops = append(r.Ops, &structs.TxnOp{Session: &structs.TxnSessionOp{Verb: api.SessionDelete, Session: structs.Session{ID: g.session()}}})
+		}
+	}
+	if len(r.Ops) == 0 {
+		return nil
+	}
+	return &built{kind: "txn:full", typ: structs.TxnRequestType, msg: r}
+}
+
+// ---------------------------------------------------------------- history driver
+
+func (g *fullGen) apply(es []Entry) {
+	for i := range es {
+		if _, pan := g.r.applyEntry(&es[i]); pan != "" {
+			panic("generator produced an entry the FSM cannot decode: " + es[i].Kind + ": " + pan)
+		}
+	}
+}
+
+func sysmeta(idx uint64, key, val string) Entry {
+	data, err := structs.Encode(structs.SystemMetadataRequestType, &structs.SystemMetadataRequest{Datacenter: "dc1",
+		Op: structs.SystemMetadataUpsert, Entry: &structs.SystemMetadataEntry{Key: key, Value: val}})
+	if err != nil {
+		panic(err)
+	}
+	return Entry{Idx: idx, Kind: "system-metadata:upsert", Type: int(structs.SystemMetadataRequestType), Data: hex.EncodeToString(data)}
 }
 
 func generate(seed int64, tier string, n int, emit func(interface{})) {
+	if _, missing := typesReport(); len(missing) > 0 {
+		panic(fmt.Sprintf("registered message types without a generator: %v", missing))
+	}
 	rng := rand.New(rand.NewSource(seed))
+	id := 0
+	for _, h := range scripted() {
+		h.ID = id
+		id++
+		emit(h)
+	}
 	mixes := []string{"kv", "session", "txn"}
-	for i := 0; i < n; i++ {
+	for ; id < n; id++ {
 		r := newReplica()
-		g := &coreGen{rng: rand.New(rand.NewSource(rng.Int63())), r: r, mix: mixes[i%3]}
-		h := History{ID: i, Profile: "core-" + g.mix}
-		ln := 1 + rng.Intn(30)
-		for k := 0; k < ln; k++ {
-			c := g.next()
-			e := coreEntry(&c)
-			r.applyEntry(&e)
-			h.Entries = append(h.Entries, e)
+		hs := rng.Int63()
+		if id%4 == 3 {
+			// the modelled subset only: replayed through coq/Store/Model.v by Run/C01.v
+			g := &coreGen{rng: rand.New(rand.NewSource(hs)), r: r, mix: mixes[(id/4)%3]}
+			h := History{ID: id, Profile: "core-" + g.mix}
+			for k, ln := 0, 1+rng.Intn(30); k < ln; k++ {
+				c := g.next()
+				e := coreEntry(&c)
+				r.applyEntry(&e)
+				h.Entries = append(h.Entries, e)
+			}
+			r.close()
+			emit(h)
+			continue
+		}
+		g := &fullGen{rng: rand.New(rand.NewSource(hs)), r: r}
+		g.core = &coreGen{rng: g.rng, r: r, mix: mixes[id%3]}
+		h := History{ID: id, Profile: "full"}
+		// preamble: the system metadata a leader writes when it establishes leadership
+		pre := []Entry{}
+		if g.rng.Intn(10) < 8 {
+			g.idx++
+			pre = append(pre, sysmeta(g.idx, structs.SystemMetadataVirtualIPsEnabled, "true"))
+		}
+		if g.rng.Intn(10) < 5 {
+			g.idx++
+			pre = append(pre, sysmeta(g.idx, structs.SystemMetadataTermGatewayVirtualIPsEnabled, "true"))
+		}
+		if g.rng.Intn(10) < 5 {
+			g.idx++
+			pre = append(pre, sysmeta(g.idx, structs.SystemMetadataIntentionFormatKey, structs.SystemMetadataIntentionFormatConfigValue))
+		}
+		if g.rng.Intn(10) < 6 {
+			// initializeACLs: the builtin policies
+			g.idx++
+			pol := &structs.ACLPolicy{ID: structs.ACLPolicyGlobalManagementID, Name: structs.ACLPolicyGlobalManagementName,
+				Description: structs.ACLPolicyGlobalManagementDesc, Rules: structs.ACLPolicyGlobalManagementRules}
+			pol.SetHash(true)
+			data, err := structs.Encode(structs.ACLPolicySetRequestType, &structs.ACLPolicyBatchSetRequest{Policies: structs.ACLPolicies{pol}})
+			if err != nil {
+				panic(err)
+			}
+			pre = append(pre, Entry{Idx: g.idx, Kind: "acl-policy-set", Type: int(structs.ACLPolicySetRequestType), Data: hex.EncodeToString(data)})
+		}
+		if g.rng.Intn(10) < 4 {
+			// an operator's proxy-defaults with an L7 protocol: routers, splitters and http listeners are then accepted
+			g.idx++
+			pd := &structs.ProxyConfigEntry{Kind: structs.ProxyDefaults, Name: structs.ProxyConfigGlobal, Config: map[string]interface{}{"protocol": "http"}}
+			if err := pd.Normalize(); err != nil {
+				panic(err)
+			}
+			data, err := structs.Encode(structs.ConfigEntryRequestType, &structs.ConfigEntryRequest{Datacenter: "dc1", Op: structs.ConfigEntryUpsert, Entry: pd})
+			if err != nil {
+				panic(err)
+			}
+			pre = append(pre, Entry{Idx: g.idx, Kind: "config-entry:upsert:proxy-defaults", Type: int(structs.ConfigEntryRequestType), Data: hex.EncodeToString(data)})
+		}
+		g.apply(pre)
+		h.Entries = append(h.Entries, pre...)
+		for k, ln := 0, 5+rng.Intn(36); k < ln; k++ {
+			es := g.next()
+			g.apply(es)
+			h.Entries = append(h.Entries, es...)
 		}
 		r.close()
 		emit(h)
